@@ -172,7 +172,11 @@ def run_case(case, ctx):
                 res.violation("stdout-with-output-file", "document printed to stdout although -o was given", out=r.stdout[:200])
         else:
             doc = r.stdout
-        lint = json.loads(rl.stdout)
+        try:
+            lint = json.loads(rl.stdout)
+        except ValueError:
+            res.violation("lint-gives-no-report", f"lint --json exit {rl.exit_code} without a report", **rl.brief())
+            return res.out()
         check_doc(res, doc, lint, recipe, root, concluded, args)
         res.cell("out:" + where)
         res.cell("concluded" if concluded else "noassertion")
